@@ -42,6 +42,7 @@ type sched struct {
 	deferSpawn   bool
 	forkOrder    bool
 	taskCnt      int
+	opCount      map[string]int // visible operations seen so far per task and kind (native steering)
 	crashBase    int
 }
 
@@ -139,6 +140,11 @@ func (i *interpreter) block(cond func() bool, what string) {
 		t.waitFor = cond
 		t.what = what
 		next := i.pickNext()
+		if next == nil && i.passTime() {
+			// every goroutine waits and a timer is pending: time passes
+			t.waitFor = nil
+			continue
+		}
 		if next == nil {
 			t.waitFor = nil
 			panic(crashed{"deadlock: no goroutine can make progress: " + i.describeThreads()})
@@ -166,6 +172,15 @@ func (i *interpreter) describeThreads() string {
 // yield is a scheduling point before a visible operation (explore mode only): the
 // current task may be pre-empted in favour of another task, within the pre-emption bound.
 func (i *interpreter) yield(what string) {
+	n := 0
+	if i.explore && i.cur.task > 0 {
+		if i.opCount == nil {
+			i.opCount = map[string]int{}
+		}
+		key := fmt.Sprintf("%d|%s", i.cur.task, what)
+		n = i.opCount[key]
+		i.opCount[key] = n + 1
+	}
 	if !i.explore || i.preempts >= i.preemptBound {
 		return
 	}
@@ -181,6 +196,8 @@ func (i *interpreter) yield(what string) {
 	i.w.stats.Preemptions++
 	i.schedTrace = append(i.schedTrace, fmt.Sprintf("preempt@%s->T%d", what, cands[k-1].id))
 	i.trace = append(i.trace, fmt.Sprintf("preempt@%s:T%d->T%d", what, i.cur.id, cands[k-1].id))
+	// for native steering: the n-th operation of this kind in this task is where the task is held back
+	i.trace = append(i.trace, fmt.Sprintf("steer:%d:%d:%s", i.cur.task, n, what))
 	i.switchTo(cands[k-1])
 }
 
@@ -224,6 +241,9 @@ func (i *interpreter) spawnThread(pos token.Pos, fn value, args []value, harness
 		defer i.wg.Done()
 		<-t.wake
 		t.started = true
+		if harness && i.explore {
+			i.trace = append(i.trace, fmt.Sprintf("start:%d", t.task))
+		}
 		defer func() {
 			p := recover()
 			t.done = true
